@@ -1,7 +1,8 @@
 SPECIFICATION TraceSpec
 CONSTANTS NC = 50 NI = 10 Delays = {1, 2, 3, 4} PassTimeouts = {0, 1, 2} Filters = {"all", "A"}
-          Nesting = TRUE ReAdds = 1000000 ExtFut = TRUE ReapOwnOnly = TRUE LateCancel = TRUE
+          Nesting = TRUE ReAdds = 1000000 ExtFut = 1000 ReapOwnOnly = TRUE LateCancel = TRUE
           HScripts = {"none", "raise", "pop", "add"} CoHandlers = TRUE ClaimFirst = TRUE
+          TMShutdown = TRUE ShutGuard = FALSE NFut = 3 FutLoop = "all"
 INVARIANT TraceAccepted
 INVARIANT TypeOK
 INVARIANT ExactlyOnce
@@ -13,5 +14,6 @@ INVARIANT LateResponseFindsNothing
 INVARIANT UniqueIdentity
 INVARIANT FuturesCompletedOnTimeout
 INVARIANT AfterShutdown
+INVARIANT AfterFlag
 INVARIANT NoLateTimeout
 INVARIANT EndedIsQuiet
